@@ -39,6 +39,11 @@ class Explorer:
             return False
         if self.policy is not None:
             v = self.policy(n)
+            if isinstance(v, tuple) and v and v[0] == "cut":
+                # deliberate cut (harness.Ctx.cut_forks): the branch only guards a side effect without data flow (a warning);
+                # it is taken as told and NOT recorded, so nothing is assumed about its condition
+                self.cuts = getattr(self, "cuts", 0) + 1
+                return bool(v[1])
             if v is not None:
                 c = n if v else nn
                 self.pc.append(c)
